@@ -18,8 +18,21 @@
 #     readers of the same field;
 #   * data as ordinary Go values: map[string]interface{} with []interface{} / []string lists,
 #     map[string]interface{} / map[string]string objects, strings, ints;
-#   * configuration of the engine under test: debug mode (templates compiled on demand), rate limit.
+#   * configuration of the engine under test: debug mode (templates compiled on demand), rate limit;
+#   * WHICH partials exist ("paths" stream, ~40% of the cases): a partial p of T exists iff the file
+#     T.partial/p.ast.json is in the generated tree - plain set membership of the literal string
+#     T.partial/p.  The request names partials (and/or the template T itself) written with path syntax
+#     that merely RESOLVES to some template of the tree when cleaned like a file path: trailing slash,
+#     "./" prefix, "/." suffix, "x/../b", doubled slashes, leading slash, "../T" (the page itself),
+#     "../T.partial/b" (the same partial the long way round), "../other.partial/z" (a partial of another
+#     template), directory names, "", ".", "..", the ".ast.json" suffix, other letter case, another
+#     unicode normal form, backslashes - alone, several, and mixed with existing names in any position;
+#     the same decorations on the template name T; such names also occur in the engine's history.
+#     Trees of this stream also contain partials with odd but REAL names (the empty name = file
+#     ".ast.json", "a.ast.json" = file "a.ast.json.ast.json", nested folders), which must be found.
 import json
+import posixpath
+import unicodedata
 from common import *
 
 NAMES = ["a", "b", "head", "foot", "nav.item", "x/y", "A", "b b", "é", "a.partial", "0"]
@@ -147,16 +160,112 @@ def gen_data(rng):
     return {"t": "map", "v": ents}
 
 
+# ------------------------------------------------------------------ names written with path syntax
+
+ODD_REAL_NAMES = ["", "a.ast.json", "x/y/z", "x/y.partial/a", "b/"]   # "b/" = file "b/.ast.json"
+
+
+def swap_case(s):
+    for v in (s.upper(), s.lower(), s.capitalize(), s.swapcase()):
+        if v != s:
+            return v
+    return s + "A"
+
+
+def other_form(s):
+    for f in ("NFD", "NFC"):
+        v = unicodedata.normalize(f, s)
+        if v != s:
+            return v
+    return None
+
+
+def rel_from(folder, target):
+    """how `target` (a template name of the tree) is written relative to the folder `folder`"""
+    return posixpath.relpath(target, start=folder)
+
+
+def decorate_partial(rng, t0, name, tree):
+    """A request name with path syntax derived from the partial name `name` of the page t0.  Whether the
+    result is a partial of t0 is decided later by membership of the literal string in the tree."""
+    folder = t0 + ".partial"
+    pages = [k for k in tree if ".partial/" not in k]
+    foreign = [k for k in tree if ".partial/" in k and not k.startswith(folder + "/")]
+    alts = [
+        ("trailing-slash", lambda: name + "/"),
+        ("dot-slash", lambda: "./" + name),
+        ("slash-dot", lambda: name + "/."),
+        ("up-and-back", lambda: rng.choice(["x", "nothing", "a", "x/y"]) + "/" +
+            "/".join([".."] * rng.choice([1, 1, 2])) + "/" + name),
+        ("up-and-back", lambda: "../" + posixpath.basename(folder) + "/" + name),
+        ("double-slash", lambda: name.replace("/", "//") if "/" in name and rng.random() < 0.6
+            else rng.choice(["/" + name, name + "//", ".//" + name])),
+        ("page-itself", lambda: rel_from(folder, t0)),
+        ("other-page", lambda: rel_from(folder, rng.choice(pages)) if pages else "../nope"),
+        ("foreign-partial", lambda: rel_from(folder, rng.choice(foreign)) if foreign else "../nope.partial/z"),
+        ("absolute", lambda: "/" + folder + "/" + name),
+        ("ast-suffix", lambda: name + ".ast.json"),
+        ("other-case", lambda: swap_case(name)),
+        ("other-normal-form", lambda: other_form(name) or swap_case(name)),
+        ("directory", lambda: posixpath.dirname(name) + rng.choice(["", "/"]) if "/" in name else rng.choice([".", "..", ""])),
+        ("empty-or-dots", lambda: rng.choice(["", ".", "..", "/", "./", "../"])),
+        ("inner-dot", lambda: name.replace("/", rng.choice(["/./", "/z/../"]), 1) if "/" in name else "./././" + name),
+        ("backslash", lambda: name.replace("/", "\\") if "/" in name else rng.choice([".\\" + name, name + "\\"])),
+        ("space-or-newline", lambda: rng.choice([name + " ", " " + name, name + "\n", name + "%2f", "%2e/" + name])),
+    ]
+    weights = [12, 10, 8, 8, 4, 8, 8, 3, 8, 3, 5, 6, 2, 4, 4, 4, 2, 2]
+    kind, f = rng.choices(alts, weights)[0]
+    return kind, f()
+
+
+def decorate_template(rng, t0, tree):
+    pages = [k for k in tree if ".partial/" not in k and k != t0]
+    d, b = posixpath.dirname(t0), posixpath.basename(t0)
+    alts = [
+        ("trailing-slash", lambda: t0 + "/"),
+        ("dot-slash", lambda: "./" + t0),
+        ("slash-dot", lambda: t0 + "/."),
+        ("up-and-back", lambda: (lambda o: o + "/.." * (o.count("/") + 1) + "/" + t0)(rng.choice(pages) if pages else "x")),
+        ("up-and-back", lambda: (d + "/" if d else "") + "x/../" + b),
+        ("double-slash", lambda: t0.replace("/", "//") if "/" in t0 else rng.choice(["/" + t0, ".//" + t0])),
+        ("absolute", lambda: "/" + t0),
+        ("ast-suffix", lambda: t0 + ".ast.json"),
+        ("other-case", lambda: swap_case(t0)),
+        ("empty-or-dots", lambda: rng.choice(["", ".", ".."])),
+        ("through-partial-folder", lambda: t0 + ".partial/../" + b),
+        ("inner-dot", lambda: t0.replace("/", "/./", 1) if "/" in t0 else "./././" + t0),
+    ]
+    weights = [10, 10, 6, 4, 6, 6, 3, 3, 5, 3, 4, 4]
+    kind, f = rng.choices(alts, weights)[0]
+    return kind, f()
+
+
+def resolves(tree, t, p):
+    """statistics only: the literal name is no file of the tree, but cleaned like a file path it is one"""
+    lit = t + ".partial/" + p
+    return lit not in tree and posixpath.normpath(lit).lstrip("/") in tree
+
+
 # ------------------------------------------------------------------ engine history
 
 HISTORIES = [("fresh", 34), ("load", 18), ("page", 12), ("one", 12), ("partials", 16), ("mixed", 8)]
 
 
-def gen_prep(rng, t, existing, req):
+def gen_prep(rng, t, existing, req, tree=None, treq=None):
+    """history of the engine under test.  t = the page of the tree; tree (paths stream only) = names of
+    all files: then some earlier calls also carry names written with path syntax; treq = the (possibly
+    decorated) template name of the judged call."""
     kind = rng.choices([h for h, _ in HISTORIES], [w for _, w in HISTORIES])[0]
+
+    def odd(base=None):
+        return decorate_partial(rng, t, base or rng.choice(existing or NAMES), tree)[1]
 
     def one():
         r = rng.random()
+        if tree is not None and rng.random() < 0.4:
+            if rng.random() < 0.3:
+                return {"op": "render", "name": hx(decorate_template(rng, t, tree)[1])}
+            return {"op": "render", "name": hx(t + ".partial/" + odd())}
         if r < 0.55 and existing:
             return {"op": "render", "name": hx(t + ".partial/" + rng.choice(existing))}
         if r < 0.8:
@@ -165,14 +274,25 @@ def gen_prep(rng, t, existing, req):
 
     def partials():
         r = rng.random()
-        if r < 0.35:
+        same = r < 0.35
+        if same:
             names = list(req)                                  # the very same request, earlier
         elif r < 0.7 and existing:
             names = [rng.choice(existing) for _ in range(rng.randint(1, 4))]
         else:
             names = [rng.choice(existing + ["nope"]) for _ in range(rng.randint(1, 3))] + ["nope"]
             rng.shuffle(names)
-        return {"op": "partials", "names": [hx(p) for p in names]}
+        op = {"op": "partials", "names": [hx(p) for p in names], "t": hx(treq if same and treq is not None else t)}
+        if tree is not None and not same and rng.random() < 0.5:
+            r = rng.random()
+            if r < 0.3:
+                op["t"] = hx(treq)
+            elif r < 0.5:
+                op["t"] = hx(decorate_template(rng, t, tree)[1])
+            if r >= 0.3 or treq == t:
+                names.insert(rng.randint(0, len(names)), odd())
+                op["names"] = [hx(p) for p in names]
+        return op
     if kind == "fresh":
         return kind, []
     if kind == "load":
@@ -212,12 +332,28 @@ class C17(Prop):
             "failing ones; mixed; earlier calls with the same or with other data) x partial templates (plain, readers of list/object/number fields, mutators "
             "of the data they are given: push/pop/shift/unshift/sort/splice/member and top-level assignment) x typed "
             "Go data (map[string]interface{}, []interface{}, []string, map[string]string, int, string) x "
-            "configuration (debug mode, rate limit 0/1/2). Reference = every partial of the universe rendered alone "
-            "by Engine.Render on a separate preloaded engine with a fresh copy of the data. Non-trivial = at least "
-            "two requested names, an unknown one, or a fresh engine; distinct by SHA-1 of the case")
-    trusted = ["Engine.Render is a Section variable of the theorems (arbitrary function of the template name); "
-               "the judge instantiates it with the per-name results observed on a SEPARATE reference engine "
-               "(same tree, same debug mode, preloaded), each with its own freshly built copy of the data",
+            "configuration (debug mode, rate limit 0/1/2). ~40% of the cases are the 'which partials exist' stream: "
+            "the request names partials and/or the template T with path syntax that only RESOLVES to a template "
+            "of the tree when cleaned like a file path (trailing slash, './' prefix, '/.' suffix, 'x/../b', doubled "
+            "and leading slashes, '../T' = the page itself, '../T.partial/b', '../other.partial/z' = partial of "
+            "another template, directory names, '', '.', '..', '.ast.json' suffix, other letter case, other unicode "
+            "normal form, backslashes, blanks) - alone, several, mixed with existing names at any position, also "
+            "in the engine's history - and trees with odd but real partial names (empty name = file '.ast.json', "
+            "'a.ast.json', 'b/', nested folders). A partial EXISTS iff the literal string T.partial/p is a file "
+            "of the generated tree (the harness reports the files found on disk; they must equal the generated "
+            "set): the oracle demands error + nil map as soon as one requested name is not in that set, whatever "
+            "Engine.Render says about the name. Reference for contents = every requested/universe name rendered "
+            "alone by Engine.Render on a separate preloaded engine with a fresh copy of the data. Non-trivial = at "
+            "least two requested names, an unknown one, or a fresh engine; distinct by SHA-1 of the case")
+    trusted = ["Engine.Render is a Section variable of C17_keys/_content/_error_atomic/_order_irrelevant/"
+               "_history_independent (arbitrary function of the template name); in C17_spec_tree/"
+               "_unknown_name_errors/_success_iff_all_exist it is the exact lookup of the name in the set of files "
+               "of the tree followed by an arbitrary execution function. The judge instantiates the file set with "
+               "the generated tree (= the files the harness found on disk) and the execution with the per-name "
+               "results observed on a SEPARATE reference engine (same tree, same debug mode, preloaded), each with "
+               "its own freshly built copy of the data",
+               "existence of a partial in the oracle is string membership of T.partial/p in the file set, computed "
+               "in Coq from the generated tree; it does not consult Engine.Render or the model",
                "the harness builds the data as ordinary Go values anew for every call (reference renders, "
                "history operations, the judged call); equal data means equal value, not the same object"]
     assumptions = ["data is given as ordinary Go values (maps, slices, strings, ints), not as already converted "
@@ -225,10 +361,15 @@ class C17(Prop):
                    "construction",
                    "generated partials execute without template errors on the generated data; the template files "
                    "do not change between the calls of one case; one goroutine per engine",
+                   "the file tree has clean relative paths only and lives on a case-sensitive file system without "
+                   "unicode normalisation (Linux); no symbolic links; request names are valid UTF-8 without NUL",
                    "C17_history_independent assumes that Render's result does not depend on the engine/data state "
                    "left by earlier calls (hypothesis visible in the theorem); the correspondence check tests that "
                    "hypothesis on the real code via the history and mutator dimensions"]
-    not_yet_proved = ["that the real Engine.Render is a function of (template tree, name, data value) only is "
+    not_yet_proved = ["that compileDir registers exactly one key per file <name>.ast.json (key = clean relative path) and "
+                      "that Engine.Render looks the name up verbatim is modelled (render_lookup) and checked by "
+                      "correspondence on the generated trees and names, not derived from the Go source",
+                      "that the real Engine.Render is a function of (template tree, name, data value) only is "
                       "observed (separate reference engine, histories, mutating partials), not proved: Render itself "
                       "is a parameter of the C17 theorems",
                       "partials that include/extend other templates or call mixins of other files; concurrent "
@@ -237,10 +378,13 @@ class C17(Prop):
     def generate(self, rng, n, tier):
         cases = []
         for _ in range(n):
-            t = rng.choice(TEMPLATES)
-            k = rng.choice([0, 1, 2, 3, 4, 6])
+            t0 = rng.choice(TEMPLATES)            # the page whose file is in the tree
+            paths = rng.random() < 0.4            # the "which partials exist" stream
+            k = rng.choice([0, 1, 2, 3, 4, 6]) if not paths else rng.choice([1, 2, 3, 4])
             existing = rng.sample(NAMES, k)
-            files = {hx(t): hx(tpl_ast("main", "x"))}
+            if paths and rng.random() < 0.3:
+                existing += rng.sample(ODD_REAL_NAMES, rng.choice([1, 1, 2]))
+            files = {hx(t0): hx(tpl_ast("main", "x"))}
             # stateful: partials share a few mutable data fields, some partials change them
             stateful = rng.random() < 0.55
             fields = rng.sample(LISTS + OBJS + NUMS + SCALARS, rng.choice([1, 2, 3]))
@@ -251,24 +395,57 @@ class C17(Prop):
                 else:
                     kind = "plain"
                 ast, reads, writes = gen_partial(rng, "P[" + p + "]", kind, fields)
-                files[hx(t + ".partial/" + p)] = hx(ast)
+                files[hx(t0 + ".partial/" + p)] = hx(ast)
                 info[p] = (reads, writes)
             # a sibling template's partials must never leak in
-            if rng.random() < 0.5:
-                other = rng.choice([u for u in TEMPLATES if u != t])
+            if rng.random() < (0.5 if not paths else 0.7):
+                other = rng.choice([u for u in TEMPLATES if u != t0])
                 files[hx(other)] = hx(tpl_ast("other", "x"))
                 for p in rng.sample(NAMES, 2):
                     files[hx(other + ".partial/" + p)] = hx(tpl_ast("OTHER[" + p + "]", "x"))
+            tree = sorted(unhx(k).decode() for k in files)
             mode = rng.random()
-            if mode < 0.12:
+            if mode < 0.12 and not paths:
                 req = []
             elif mode < 0.75 and existing:
                 req = [rng.choice(existing) for _ in range(rng.randint(1, 6))]
             else:
                 pool = existing + [rng.choice(NAMES)] + ["nope"]
                 req = [rng.choice(pool) for _ in range(rng.randint(1, 5))]
-            universe = sorted(set(NAMES + ["nope"]))
-            hist, prep = gen_prep(rng, t, existing, req)
+            # names with path syntax: in the request (alone / several / mixed with existing names at any
+            # position), and/or on the template name
+            t, syntax = t0, []
+            if paths:
+                where = rng.choices(["partial", "template", "both", "real"], [62, 18, 8, 12])[0]
+                if where == "real":
+                    # positive control: odd but REAL names (files of the tree), requested verbatim
+                    odd = [p for p in existing if p in ODD_REAL_NAMES]
+                    if not odd:
+                        odd = [rng.choice(ODD_REAL_NAMES)]
+                        ast, reads, writes = gen_partial(rng, "P[" + odd[0] + "]", "plain", fields)
+                        files[hx(t0 + ".partial/" + odd[0])] = hx(ast)
+                        info[odd[0]] = (reads, writes)
+                        existing = existing + odd
+                        tree = sorted(unhx(k).decode() for k in files)
+                    req = [rng.choice(existing) for _ in range(rng.randint(0, 3))]
+                    req.insert(rng.randint(0, len(req)), rng.choice(odd))
+                    syntax.append("partial:odd-real-name")
+                elif where != "template":
+                    r = rng.random()
+                    if r < 0.25:
+                        req = []                                   # decorated names alone
+                    elif r < 0.5 and existing:
+                        req = [rng.choice(existing) for _ in range(rng.randint(1, 3))]   # among existing names only
+                    for _ in range(rng.choice([1, 1, 1, 2, 3])):
+                        base = rng.choice(existing) if existing and rng.random() < 0.85 else rng.choice(NAMES + ["nope"])
+                        kind, name = decorate_partial(rng, t0, base, tree)
+                        syntax.append("partial:" + kind)
+                        req.insert(rng.randint(0, len(req)), name)
+                if where in ("template", "both"):
+                    kind, t = decorate_template(rng, t0, tree)
+                    syntax.append("template:" + kind)
+            universe = sorted(set(NAMES + ["nope"] + req))
+            hist, prep = gen_prep(rng, t0, existing, req, tree if paths else None, t)
             prep = other_data(rng, prep)
             # mutator requested before a partial that reads what it changed (or requested twice)
             sens = any(info[req[i]][1] & info[req[j]][0]
@@ -277,7 +454,9 @@ class C17(Prop):
             cases.append({"files": files, "template": hx(t), "partials": [hx(p) for p in req],
                           "universe": [hx(u) for u in universe], "data": gen_data(rng),
                           "prep": prep, "debug": rng.random() < 0.1, "limit": rng.choice([0, 0, 0, 1, 2]),
-                          "meta": {"history": hist, "stateful": stateful, "mutator_before_reader": sens}})
+                          "meta": {"history": hist, "stateful": stateful, "mutator_before_reader": sens,
+                                   "path_syntax": syntax,
+                                   "resolves_only": sum(resolves(tree, t, p) for p in set(req))}})
         return cases
 
     def emit(self, case, obs):
@@ -287,12 +466,18 @@ class C17(Prop):
             r = a["res"]
             val = cq_opt(cq_bytes(unhx(r["out"]))) if r["class"] == "ok" else b"None"
             table.append(cq_pair(cq_bytes(t + b".partial/" + unhx(a["name"])), val))
+        # the spec side decides existence by membership in the file tree: what was generated must be
+        # exactly what the harness found on disk
+        tree = sorted(unhx(k) for k in case["files"])
+        if sorted(unhx(k) for k in obs["tree"]) != tree:
+            raise RuntimeError("C17: generated file tree and the files on disk differ: %r / %r" % (
+                tree, sorted(unhx(k) for k in obs["tree"])))
         if obs["class"] == "ok":
             go = cq_opt(cq_list([cq_pair(cq_bytes(unhx(e["key"])), cq_bytes(unhx(e["out"])))
                                  for e in (obs["entries"] or [])]))
         else:
             go = b"None"
-        return (b"{| table := " + cq_list(table) + b"; tname := " + cq_bytes(t) +
+        return (b"{| files := " + cq_list([cq_bytes(k) for k in tree]) + b"; table := " + cq_list(table) + b"; tname := " + cq_bytes(t) +
                 b"; req := " + cq_list([cq_bytes(unhx(p)) for p in case["partials"]]) +
                 b"; go := " + go + b"; go_nil_on_err := " + cq_bool(obs["nil_map"]) + b" |}")
 
@@ -303,6 +488,7 @@ class C17(Prop):
         return {"template": unhx(case["template"]).decode(), "files": sorted(unhx(k).decode() for k in case["files"]),
                 "request": [unhx(p).decode() for p in case["partials"]],
                 "history": [o["op"] for o in case.get("prep", [])], "debug": case.get("debug", False),
+                "path_syntax": case.get("meta", {}).get("path_syntax", []),
                 "go_class": obs["class"],
                 "go_keys": [unhx(e["key"]).decode() for e in (obs["entries"] or [])]}
 
@@ -357,12 +543,15 @@ class C17(Prop):
                 yield w(files=f2)
 
     def model_expr(self):
-        return "render_partials (render_of c) (tname c) (req c)"
+        return "(model17 c, exists17 c)"
 
     def distribution(self, cases, obss):
         d = {"empty_request": 0, "with_duplicates": 0, "with_unknown": 0, "go_error": 0,
              "fresh_engine": 0, "fresh_engine_all_known_nonempty": 0, "stateful_partials": 0,
-             "mutator_before_reader": 0, "debug_engine": 0, "rate_limited": 0, "history": {}}
+             "mutator_before_reader": 0, "debug_engine": 0, "rate_limited": 0, "history": {},
+             "path_syntax_cases": 0, "path_syntax_in_request": 0, "path_syntax_on_template": 0,
+             "request_with_name_that_only_resolves": 0, "only_resolving_mixed_with_existing": 0,
+             "path_syntax_request_succeeds": 0, "path_syntax": {}}
         for c, o in zip(cases, obss):
             ps = c["partials"]
             d["empty_request"] += not ps
@@ -378,6 +567,16 @@ class C17(Prop):
             d["mutator_before_reader"] += bool(m.get("mutator_before_reader"))
             d["debug_engine"] += bool(c.get("debug"))
             d["rate_limited"] += bool(c.get("limit"))
+            syn = m.get("path_syntax") or []
+            d["path_syntax_cases"] += bool(syn)
+            d["path_syntax_in_request"] += any(x.startswith("partial:") for x in syn)
+            d["path_syntax_on_template"] += any(x.startswith("template:") for x in syn)
+            d["request_with_name_that_only_resolves"] += bool(m.get("resolves_only"))
+            d["only_resolving_mixed_with_existing"] += bool(m.get("resolves_only")) and any(
+                hx(unhx(c["template"]) + b".partial/" + unhx(p)) in c["files"] for p in ps)
+            d["path_syntax_request_succeeds"] += bool(syn) and o["class"] == "ok"
+            for x in syn:
+                d["path_syntax"][x] = d["path_syntax"].get(x, 0) + 1
             h = m.get("history", "corpus")
             d["history"][h] = d["history"].get(h, 0) + 1
         return d
